@@ -9,7 +9,7 @@ pub fn dump(repo: &std::path::Path, args: &[String]) {
     println!("reachable fns={} roles={}", reach.len(), roles.len());
     let filter = args.first().cloned();
     let show = args.get(1).and_then(|s| s.parse::<usize>().ok()).unwrap_or(0);
-    let mode = match std::env::var("MODE").ok().and_then(|m| m.parse::<usize>().ok()) { Some(n) => CollMode::Unrolled(n), None => CollMode::Summary };
+    let mode = match (std::env::var("MODE").ok().and_then(|m| m.parse::<usize>().ok()), std::env::var("INNER").ok().and_then(|m| m.parse::<usize>().ok())) { (Some(n), _) => CollMode::Unrolled(n), (None, Some(n)) => CollMode::InnerUnrolled(n), _ => CollMode::Summary };
     let nrender = std::env::var("N").ok().and_then(|m| m.parse::<usize>().ok()).unwrap_or(2);
     for r in &roles {
         if r.variant == "_" { println!("{} -> fallback arm (line {})", r.name, r.line); continue; }
